@@ -1,12 +1,17 @@
 """C19 implementation runner: drives asynq.mock.patch / patch.object over a fresh namespace per case.
 
-case = {"tks": [target kind...], "ps": [[target, replacement kind, behaviour]...], "api": ["patch"|"object"...],
+case = {"tks": [target kind...], "ps": [[target, replacement kind, behaviour, share]...], "api": ["patch"|"object"...],
         "ops": [op...], "reuse": bool}  with the op constructors of Mock.v (OEnter/OExit/OStart/OStop/OStopAll/OProbe).
+"share" (default: the patcher's own index) = the lowest patcher that is given the SAME caller-supplied object as new=
+(only for explicit replacements; every patch()/patch.object() call is still made separately, so _maybe_wrap_new
+wraps a shared function / bound method once per patcher).
 "reuse" (default true): a patcher used as a decorator decorates ONE function / class, which is then called once per
 activation (false: a new function / class is decorated for every activation).
 Object identity: the object a patcher installs is {"ONew": [p, g]}; for a replacement that unittest.mock builds per
-activation (default mock, new_callable) g = number of earlier successful activations of p, otherwise 0.  Every such
-object carries its own body, so a call records WHICH activation's object it reached.
+activation (default mock, new_callable) g = number of earlier successful activations of p, otherwise 0; an explicit
+object that is installed as is and shared by several patchers is {"ONew": [share, 0]} in every slot.  Every given /
+per-activation object carries its own body, so a call records WHICH object's code it reached (a shared function
+wrapped once per patcher records {"ONew": [share, 0]}).
 Output: {"out": (per-op results, final own slot per target, #patches still registered as started),
          "obs": per-op observations for the monitors, "construct": per-patcher construction notes}
 """
@@ -146,8 +151,11 @@ def access_holder(env, t):
     return env.Cls
 
 
-def make_replacement(env, p, rk, beh):
+def make_replacement(env, p, rk, beh, share=None):
     """returns (kwargs for patch(), given object or None)"""
+    if share is not None and share != p and rk not in PER_ACTIVATION and env.given.get(share) is not None:
+        # the very object patcher `share` was given; its code records {"ONew": [share, 0]}
+        return {"new": env.given[share]}, env.given[share]
     def gbody(g, *a):
         """the code of the object made by activation g of patcher p (g = 0: the one explicit object)"""
         rec = env.canon(a)
@@ -220,6 +228,15 @@ def make_replacement(env, p, rk, beh):
     if rk == "RCallableObj":
         g = CallableObj()
         return {"new": g}, g
+    if rk == "RMockObj":
+        # a Mock / MagicMock instance given as new= (not made by unittest.mock per activation)
+        g = (mock.MagicMock if p % 2 == 0 else mock.Mock)(side_effect=body)
+        return {"new": g}, g
+    if rk == "RClassObj":
+        class FakeClass(object):
+            def __new__(cls, *a):
+                return body(*a)
+        return {"new": FakeClass}, FakeClass
     if rk == "RSlotsObj":
         g = SlotsObj()
         return {"new": g}, g
@@ -245,8 +262,8 @@ def make_replacement(env, p, rk, beh):
 
 
 def construct(env, p, spec, api):
-    t, rk, beh = spec
-    kw, given = make_replacement(env, p, rk, beh)
+    t, rk, beh, share = spec
+    kw, given = make_replacement(env, p, rk, beh, share)
     env.given[p] = given
     tk = env.tks[t]
     name = env.names[t]
@@ -278,7 +295,8 @@ def run_case(c):
     env.given = {}
     env.installed = {}
     ops = c["ops"]
-    specs = [s[""] if isinstance(s, dict) else s for s in c["ps"]]
+    specs = [list(s[""] if isinstance(s, dict) else s) for s in c["ps"]]
+    specs = [s if len(s) > 3 else s + [p] for p, s in enumerate(specs)]
     api = c.get("api") or ["object"] * len(specs)
     patchers = []
     construct_notes = []
@@ -298,6 +316,11 @@ def run_case(c):
         for t, x in enumerate(env.orig):
             if o is x:
                 return {"Some": [{"OOrig": [t]}]}
+        # an explicit replacement: what patch() kept as .new (the given object itself, or this patcher's own
+        # AsyncAndSyncPairDecorator / Wrapper around it); a shared as-is object is named after its first patcher
+        for p in range(len(specs)):
+            if specs[p][1] not in PER_ACTIVATION and o is patchers[p].new:
+                return {"Some": [{"ONew": [p, 0]}]}
         for p in sorted(env.installed, reverse=True):
             for g, x in enumerate(env.installed[p]):
                 if o is x:
@@ -321,10 +344,10 @@ def run_case(c):
         slot = own_dict(env, t).get(name, ABSENT)
         cur = slot if slot is not ABSENT else env.Cls.__dict__.get(name, ABSENT)
         holder = access_holder(env, t)
-        o = {"own": own_slots(), "convs": [], "as_is": None}
-        for p, g in env.given.items():
+        o = {"own": own_slots(), "convs": [], "as_is": []}
+        for p, g in sorted(env.given.items()):
             if g is not None and cur is g:
-                o["as_is"] = p
+                o["as_is"].append(p)
         acc = getattr(holder, name, ABSENT)
         if acc is ABSENT or not callable(acc):
             res[k] = {"RProbe": [ident(cur), []]}
@@ -370,6 +393,9 @@ def run_case(c):
                     continue
             if not calls and outcome[0] == "raise" and outcome[1] == "TypeError":
                 cs.append("CNotCallable")
+                continue
+            if not calls and outcome[0] == "raise" and outcome[1] == "AttributeError" and cname != "CSync":
+                cs.append("CDetached")
                 continue
             cs.append({"CBad": [{"s": "%d calls, outcome %s" % (len(calls), outcome[:2])}]})
         res[k] = {"RProbe": [ident(cur), cs]}
